@@ -154,16 +154,13 @@ package autodiff
 //@   (c.Order >= 1 ==> (forall i int :: 0 <= i && i < c.N ==> c.Derivative[i] == old(L2D(a, b, v10, v01, i)))) &&
 //@   (c.Order >= 2 ==> (forall i int, j int :: 0 <= i && i <= j && j < c.N ==>
 //@        c.Hessian[i][j] == old(L2H(a, b, v10, v01, v11, v20, v02, i, j)) && c.Hessian[j][i] == old(L2H(a, b, v10, v01, v11, v20, v02, i, j))))
-// the receiver may be an operand, also when it has to be re-allocated for a higher order (Alloc keeps the gradient).
-// Excluded: a receiver that is an operand while the operands disagree on the number of variables (invalid use, but the
-// loud failure is lost: the check runs after the re-allocation) -- see DESIGN.md, C20.
+// the receiver may be an operand, also when it has to be re-allocated for a higher order (Alloc keeps the gradient);
+// operands that disagree on the number of variables are rejected before anything is written
 //@ spec alias_$R(c *$R, a ConstScalar) bool = is(*$R, a) && a.(*$R) == c
-//@ spec noRealloc_$R(c *$R, a ConstScalar, b ConstScalar) bool =
-//@   alias_$R(c, a) || alias_$R(c, b) ==> !(order(a) >= 1 && order(b) >= 1 && nvars(a) != nvars(b))
 
 //@ func (*$R).dyadic [also: (*$R).realDyadic]
 //@   model acmul
-//@   requires RI_$R(c) && RIc(a) && RIc(b) && sep_$R(c, a) && sep_$R(c, b) && constNoVars(a) && constNoVars(b) && noRealloc_$R(c, a, b)
+//@   requires RI_$R(c) && RIc(a) && RIc(b) && sep_$R(c, a) && sep_$R(c, b) && constNoVars(a) && constNoVars(b)
 //@   panics_when order(a) >= 1 && order(b) >= 1 && nvars(a) != nvars(b)
 //@   ensures isa(*$R, result) && as(*$R, result) == c
 //@   ensures lift2_post_$R(c, a, b, v0, v10, v01, v11, v20, v02)
@@ -172,7 +169,8 @@ package autodiff
 //@   loop 1 invariant (!alias_$R(c, a) ==> order(a) == old(order(a)) && nvars(a) == old(nvars(a))) && (!alias_$R(c, b) ==> order(b) == old(order(b)) && nvars(b) == old(nvars(b)))
 //@   loop 1 invariant forall k int :: 0 <= k && k < c.N ==> D(a, k) == old(D(a, k))
 //@   loop 1 invariant forall k int :: 0 <= k && k < c.N ==> D(b, k) == old(D(b, k))
-//@   loop 1 invariant forall p int, q int :: 0 <= p && p < i && p <= q && q < c.N ==> c.Hessian[p][q] == old(L2H(a, b, v10, v01, v11, v20, v02, p, q)) && c.Hessian[q][p] == old(L2H(a, b, v10, v01, v11, v20, v02, p, q))
+//@   loop 1 invariant forall p int, q int :: 0 <= p && p < i && p <= q && q < c.N ==> c.Hessian[p][q] == old(L2H(a, b, v10, v01, v11, v20, v02, p, q))
+//@   loop 1 invariant forall p int, q int :: 0 <= p && p < i && p <= q && q < c.N ==> c.Hessian[q][p] == old(L2H(a, b, v10, v01, v11, v20, v02, p, q))
 //@   loop 1 invariant !alias_$R(c, a) ==> (forall p int, q int :: 0 <= p && p < c.N && 0 <= q && q < c.N ==> H(a, p, q) == old(H(a, p, q)))
 //@   loop 1 invariant alias_$R(c, a) ==> (forall p int, q int :: i <= p && p <= q && q < c.N ==> c.Hessian[p][q] == old(H(a, p, q)))
 //@   loop 1 invariant !alias_$R(c, b) ==> (forall p int, q int :: 0 <= p && p < c.N && 0 <= q && q < c.N ==> H(b, p, q) == old(H(b, p, q)))
@@ -183,7 +181,8 @@ package autodiff
 //@   loop 2 invariant (!alias_$R(c, a) ==> order(a) == old(order(a)) && nvars(a) == old(nvars(a))) && (!alias_$R(c, b) ==> order(b) == old(order(b)) && nvars(b) == old(nvars(b)))
 //@   loop 2 invariant forall k int :: 0 <= k && k < c.N ==> D(a, k) == old(D(a, k))
 //@   loop 2 invariant forall k int :: 0 <= k && k < c.N ==> D(b, k) == old(D(b, k))
-//@   loop 2 invariant forall p int, q int :: 0 <= p && p < i && p <= q && q < c.N ==> c.Hessian[p][q] == old(L2H(a, b, v10, v01, v11, v20, v02, p, q)) && c.Hessian[q][p] == old(L2H(a, b, v10, v01, v11, v20, v02, p, q))
+//@   loop 2 invariant forall p int, q int :: 0 <= p && p < i && p <= q && q < c.N ==> c.Hessian[p][q] == old(L2H(a, b, v10, v01, v11, v20, v02, p, q))
+//@   loop 2 invariant forall p int, q int :: 0 <= p && p < i && p <= q && q < c.N ==> c.Hessian[q][p] == old(L2H(a, b, v10, v01, v11, v20, v02, p, q))
 //@   loop 2 invariant forall q int :: i <= q && q < j ==> c.Hessian[i][q] == old(L2H(a, b, v10, v01, v11, v20, v02, i, q)) && c.Hessian[q][i] == old(L2H(a, b, v10, v01, v11, v20, v02, i, q))
 //@   loop 2 invariant !alias_$R(c, a) ==> (forall p int, q int :: 0 <= p && p < c.N && 0 <= q && q < c.N ==> H(a, p, q) == old(H(a, p, q)))
 //@   loop 2 invariant alias_$R(c, a) ==> (forall p int, q int :: i <= p && p <= q && q < c.N && !(p == i && q < j) ==> c.Hessian[p][q] == old(H(a, p, q)))
@@ -318,7 +317,7 @@ package autodiff
 //@   loop 3 decreases c.N - i
 //@ func (*$R).dyadicLazy [also: (*$R).realDyadicLazy]
 //@   model acmul
-//@   requires RI_$R(c) && RIc(a) && RIc(b) && sep_$R(c, a) && sep_$R(c, b) && constNoVars(a) && constNoVars(b) && noRealloc_$R(c, a, b)
+//@   requires RI_$R(c) && RIc(a) && RIc(b) && sep_$R(c, a) && sep_$R(c, b) && constNoVars(a) && constNoVars(b)
 //@   panics_when order(a) >= 1 && order(b) >= 1 && nvars(a) != nvars(b)
 //@   ensures isa(*$R, result) && as(*$R, result) == c
 //@   ensures lift2_post_$R(c, a, b, v0, old(call0(f1)), old(call1(f1)), old(call0(f2)), old(call1(f2)), old(call2(f2)))
@@ -327,7 +326,8 @@ package autodiff
 //@   loop 1 invariant (!alias_$R(c, a) ==> order(a) == old(order(a)) && nvars(a) == old(nvars(a))) && (!alias_$R(c, b) ==> order(b) == old(order(b)) && nvars(b) == old(nvars(b)))
 //@   loop 1 invariant forall k int :: 0 <= k && k < c.N ==> D(a, k) == old(D(a, k))
 //@   loop 1 invariant forall k int :: 0 <= k && k < c.N ==> D(b, k) == old(D(b, k))
-//@   loop 1 invariant forall p int, q int :: 0 <= p && p < i && p <= q && q < c.N ==> c.Hessian[p][q] == old(L2H(a, b, v10, v01, v11, v20, v02, p, q)) && c.Hessian[q][p] == old(L2H(a, b, v10, v01, v11, v20, v02, p, q))
+//@   loop 1 invariant forall p int, q int :: 0 <= p && p < i && p <= q && q < c.N ==> c.Hessian[p][q] == old(L2H(a, b, v10, v01, v11, v20, v02, p, q))
+//@   loop 1 invariant forall p int, q int :: 0 <= p && p < i && p <= q && q < c.N ==> c.Hessian[q][p] == old(L2H(a, b, v10, v01, v11, v20, v02, p, q))
 //@   loop 1 invariant !alias_$R(c, a) ==> (forall p int, q int :: 0 <= p && p < c.N && 0 <= q && q < c.N ==> H(a, p, q) == old(H(a, p, q)))
 //@   loop 1 invariant alias_$R(c, a) ==> (forall p int, q int :: i <= p && p <= q && q < c.N ==> c.Hessian[p][q] == old(H(a, p, q)))
 //@   loop 1 invariant !alias_$R(c, b) ==> (forall p int, q int :: 0 <= p && p < c.N && 0 <= q && q < c.N ==> H(b, p, q) == old(H(b, p, q)))
@@ -338,7 +338,8 @@ package autodiff
 //@   loop 2 invariant (!alias_$R(c, a) ==> order(a) == old(order(a)) && nvars(a) == old(nvars(a))) && (!alias_$R(c, b) ==> order(b) == old(order(b)) && nvars(b) == old(nvars(b)))
 //@   loop 2 invariant forall k int :: 0 <= k && k < c.N ==> D(a, k) == old(D(a, k))
 //@   loop 2 invariant forall k int :: 0 <= k && k < c.N ==> D(b, k) == old(D(b, k))
-//@   loop 2 invariant forall p int, q int :: 0 <= p && p < i && p <= q && q < c.N ==> c.Hessian[p][q] == old(L2H(a, b, v10, v01, v11, v20, v02, p, q)) && c.Hessian[q][p] == old(L2H(a, b, v10, v01, v11, v20, v02, p, q))
+//@   loop 2 invariant forall p int, q int :: 0 <= p && p < i && p <= q && q < c.N ==> c.Hessian[p][q] == old(L2H(a, b, v10, v01, v11, v20, v02, p, q))
+//@   loop 2 invariant forall p int, q int :: 0 <= p && p < i && p <= q && q < c.N ==> c.Hessian[q][p] == old(L2H(a, b, v10, v01, v11, v20, v02, p, q))
 //@   loop 2 invariant forall q int :: i <= q && q < j ==> c.Hessian[i][q] == old(L2H(a, b, v10, v01, v11, v20, v02, i, q)) && c.Hessian[q][i] == old(L2H(a, b, v10, v01, v11, v20, v02, i, q))
 //@   loop 2 invariant !alias_$R(c, a) ==> (forall p int, q int :: 0 <= p && p < c.N && 0 <= q && q < c.N ==> H(a, p, q) == old(H(a, p, q)))
 //@   loop 2 invariant alias_$R(c, a) ==> (forall p int, q int :: i <= p && p <= q && q < c.N && !(p == i && q < j) ==> c.Hessian[p][q] == old(H(a, p, q)))
@@ -507,7 +508,7 @@ package autodiff
 
 //@ func (*$R).Add [also: (*$R).ADD]
 //@   model split
-//@   requires RI_$R(c) && RIc(a) && RIc(b) && sep_$R(c, a) && sep_$R(c, b) && constNoVars(a) && constNoVars(b) && noRealloc_$R(c, a, b)
+//@   requires RI_$R(c) && RIc(a) && RIc(b) && sep_$R(c, a) && sep_$R(c, b) && constNoVars(a) && constNoVars(b)
 //@   panics_when order(a) >= 1 && order(b) >= 1 && nvars(a) != nvars(b)
 //@   site dyadic|realDyadic @v0 v0 == (val(a) + val(b))
 //@   site dyadic|realDyadic @v10 v10 == 1
@@ -521,7 +522,7 @@ package autodiff
 
 //@ func (*$R).Sub [also: (*$R).SUB]
 //@   model split
-//@   requires RI_$R(c) && RIc(a) && RIc(b) && sep_$R(c, a) && sep_$R(c, b) && constNoVars(a) && constNoVars(b) && noRealloc_$R(c, a, b)
+//@   requires RI_$R(c) && RIc(a) && RIc(b) && sep_$R(c, a) && sep_$R(c, b) && constNoVars(a) && constNoVars(b)
 //@   panics_when order(a) >= 1 && order(b) >= 1 && nvars(a) != nvars(b)
 //@   site dyadic|realDyadic @v0 v0 == (val(a) + ((0 - 1) * val(b)))
 //@   site dyadic|realDyadic @v10 v10 == 1
@@ -535,7 +536,7 @@ package autodiff
 
 //@ func (*$R).Mul [also: (*$R).MUL]
 //@   model split
-//@   requires RI_$R(c) && RIc(a) && RIc(b) && sep_$R(c, a) && sep_$R(c, b) && constNoVars(a) && constNoVars(b) && noRealloc_$R(c, a, b)
+//@   requires RI_$R(c) && RIc(a) && RIc(b) && sep_$R(c, a) && sep_$R(c, b) && constNoVars(a) && constNoVars(b)
 //@   panics_when order(a) >= 1 && order(b) >= 1 && nvars(a) != nvars(b)
 //@   site dyadic|realDyadic @v0 v0 == (val(a) * val(b))
 //@   site dyadic|realDyadic @v10 v10 == val(b)
@@ -549,7 +550,7 @@ package autodiff
 
 //@ func (*$R).Div [also: (*$R).DIV]
 //@   model split
-//@   requires RI_$R(c) && RIc(a) && RIc(b) && sep_$R(c, a) && sep_$R(c, b) && constNoVars(a) && constNoVars(b) && noRealloc_$R(c, a, b)
+//@   requires RI_$R(c) && RIc(a) && RIc(b) && sep_$R(c, a) && sep_$R(c, b) && constNoVars(a) && constNoVars(b)
 //@   requires val(b) != 0
 //@   panics_when order(a) >= 1 && order(b) >= 1 && nvars(a) != nvars(b)
 //@   site dyadic|realDyadic @v0 v0 == ((val(a)) / (val(b)))
@@ -564,7 +565,7 @@ package autodiff
 
 //@ func (*$R).Pow [also: (*$R).POW]
 //@   model split
-//@   requires RI_$R(c) && RIc(a) && RIc(k) && sep_$R(c, a) && sep_$R(c, k) && constNoVars(a) && constNoVars(k) && noRealloc_$R(c, a, k)
+//@   requires RI_$R(c) && RIc(a) && RIc(k) && sep_$R(c, a) && sep_$R(c, k) && constNoVars(a) && constNoVars(k)
 //@   requires val(a) > 0
 //@   panics_when order(a) >= 1 && order(k) >= 1 && nvars(a) != nvars(k)
 //@   site dyadicLazy|realDyadicLazy @v0 v0 == pow(val(a), val(b))
